@@ -138,7 +138,7 @@ impl Property for C08 {
         }
     }
     fn rule(&self) -> &'static str {
-        "kind 0: 6912-byte contents (random, single bits, per-third patterns, all-flash, no-flash) written through a seeded path (CPU LDIR via 0x4000, via 0xC000 with bank 5/7 paged, CPU 16-bit stores and pushes at seeded offsets, partial tape fast-loads through either window, pokes via 0x4000 / 0xC000, SCR load, SNA load, SZX load, tape fast-load, raw bus writes), 128K screen bit toggled, then quiet frames compared pixel-exact with RefScreen; kind 1: flash run-lengths over 50..70 frames; kind 2: one byte written by the CPU at a T at least two lines before / after its beam position. distinct = (kind, path, machine, displayed bank, content style, third / beam side)"
+        "kind 0: 6912-byte contents (random, single bits, per-third patterns, all-flash, no-flash) written through a seeded path (CPU LDIR via 0x4000, via 0xC000 with bank 5/7 paged, CPU 16-bit stores and pushes at seeded offsets, partial tape fast-loads through either window, pokes via 0x4000 / 0xC000, SCR load, SNA load, SZX load, tape fast-load, raw bus writes), 128K screen bit toggled, then quiet frames compared pixel-exact with RefScreen; kind 1: flash run-lengths over 50..70 frames, on the 128K with both screens flashing and the displayed one switched at seeded frame boundaries; kind 2: one byte written by the CPU at a T at least two lines before / after its beam position. distinct = (kind, path, machine, displayed bank, content style, third / beam side)"
     }
     fn state_measure(&self) -> &'static str {
         "distinct (machine, path, shadow, flash phase seen) combinations compared"
@@ -157,7 +157,7 @@ impl Property for C08 {
         ]
     }
     fn expected_probes(&self) -> Vec<&'static str> {
-        vec!["path_cpu_c000_bank7", "shadow_displayed", "flash_runs_checked", "beam_before", "beam_after", "path_poke", "path_sna", "path_szx", "path_scr", "path_fastload", "path_fastload_part", "path_fastload_c000", "path_cpu_words", "first_frame_after_host_write", "snapshot_saved_with_sp_in_screen", "screen_selected_with_lock_bit", "beam_host_write", "beam_paging_write_same_frame", "beam_inside_attribute_row", "multi_frame_call_stopped_by_breakpoint"]
+        vec!["path_cpu_c000_bank7", "shadow_displayed", "flash_runs_checked", "flash_across_screen_switch", "beam_before", "beam_after", "path_poke", "path_sna", "path_szx", "path_scr", "path_fastload", "path_fastload_part", "path_fastload_c000", "path_cpu_words", "first_frame_after_host_write", "snapshot_saved_with_sp_in_screen", "screen_selected_with_lock_bit", "beam_host_write", "beam_paging_write_same_frame", "beam_inside_attribute_row", "multi_frame_call_stopped_by_breakpoint"]
     }
 
     fn gen(&self, rng: &mut Rng, tier: Tier, idx: u64) -> Scenario {
@@ -204,6 +204,9 @@ impl Property for C08 {
                 }
                 sc.set("shadow", (m128 && rng.bool()) as i64);
                 sc.set("warm", rng.range(0, 40));
+                // 128K: both screens hold flashing cells and the program switches between them at seeded frame
+                // boundaries; the polarity runs go on across the switches (one FLASH clock, not one per screen)
+                sc.set("sw_seed", if m128 && rng.chance(2, 3) { (rng.next() >> 8) as i64 | 1 } else { 0 });
             }
             _ => {
                 let y = rng.range(4, 187);
@@ -531,10 +534,28 @@ impl Property for C08 {
                 }
                 let page = phys_screen_page(m128, shadow);
                 e.verif_ram_page(page)[..6912].copy_from_slice(&s2);
+                let sw_seed = if m128 { sc.get("sw_seed") } else { 0 };
+                if sw_seed != 0 {
+                    // the other screen: flashing cells too, another picture
+                    let mut s3 = s2.clone();
+                    for (i, b) in s3.iter_mut().enumerate() {
+                        if i < 6144 {
+                            *b = !*b ^ (i as u8);
+                        } else {
+                            *b ^= 0x40 | 0x12;
+                            if (*b & 7) == ((*b >> 3) & 7) {
+                                *b ^= 2;
+                            }
+                        }
+                    }
+                    e.verif_ram_page(phys_screen_page(m128, !shadow))[..6912].copy_from_slice(&s3);
+                }
                 e.verif_refresh_screen();
                 if shadow {
                     e.verif_bus().write_io(0x7FFD, 0x08);
                 }
+                let mut shadow = shadow;
+                let mut sw_rng = Rng::new(sw_seed as u64);
                 let warm = sc.get("warm").clamp(0, 100) as usize;
                 run_frames(&mut e, warm + 2).map_err(|x| Fail::new("C08.run", "", x))?;
                 let n = sc.get("frames").clamp(40, 70_000) as usize;
@@ -554,6 +575,12 @@ impl Property for C08 {
                 };
                 let mut phases = vec![];
                 for _ in 0..n {
+                    if sw_seed != 0 && sw_rng.chance(1, 9) {
+                        // (the frame has just begun: the beam is far above the picture)
+                        ctx.probe("flash_across_screen_switch");
+                        shadow = !shadow;
+                        e.verif_bus().write_io(0x7FFD, if shadow { 0x08 } else { 0x00 });
+                    }
                     run_frames(&mut e, 1).map_err(|x| Fail::new("C08.run", "", x))?;
                     match check_frame(&mut e, m128, shadow, "flash", ctx)? {
                         Some(p) => phases.push(p),
